@@ -2,6 +2,7 @@ package props
 
 import (
 	"fmt"
+	"sort"
 	"go/constant"
 	"go/types"
 
@@ -55,7 +56,8 @@ func (c *Ctx) senders() []*ssa.Function {
 	r := c.Roles()
 	var out []*ssa.Function
 	for _, fn := range c.P.Funcs {
-		if recvNamed(fn) != "service" || fn.Parent() != nil {
+		// a method of the connection's service, or of the client API when a sender is written out there
+		if rn := recvNamed(fn); rn != "service" && rn != "Client" || fn.Parent() != nil {
 			continue
 		}
 		w, q := false, false
@@ -102,7 +104,18 @@ func (c *Ctx) registerBeforeSend() {
 		}
 		write := nodeM(mCallee(r.RingWrite))
 		reg := nodeM(mMethod(pkgSessions, "Ackqueue", "Wait"))
-		key := fname(fn) + ":register-before-send"
+		// named by the ack queues the request is registered in (the request kind), which stays the same when the
+		// sender is renamed or written out in its caller
+		var qs []string
+		for _, call := range ir.Calls(fn) {
+			if ir.IsMethod(call.Common(), pkgSessions, "Ackqueue", "Wait") {
+				if p := ir.PathOf(call.Common().Args[0]); len(p.Fields) > 0 && p.Fields[len(p.Fields)-1] != "Pub2in" {
+					qs = append(qs, p.Fields[len(p.Fields)-1])
+				}
+			}
+		}
+		sort.Strings(qs)
+		key := "sender(" + joinStr(dedupStrings(qs), "+") + "):register-before-send"
 		// every registration must be preceded by... the other way round: no write may precede the registration
 		var bad []paths.Node
 		for _, w := range nodesMatching(g, write) {
@@ -444,4 +457,14 @@ func hasParamNamed(fn *ssa.Function, name string) bool {
 		}
 	}
 	return false
+}
+
+func dedupStrings(in []string) []string {
+	var out []string
+	for i, x := range in {
+		if i == 0 || x != in[i-1] {
+			out = append(out, x)
+		}
+	}
+	return out
 }
